@@ -40,6 +40,7 @@ import Bermuda.Lemmas.AllOps2
 import Bermuda.Lemmas.AllOps3
 import Bermuda.Model.AllOps3
 import Bermuda.Lemmas.AllOps4
+import Bermuda.Lemmas.AllOpsExamples
 namespace Bermuda.Properties.C01Ext
 open Bermuda Bermuda.Properties.C01 Bermuda.AllOps
 
@@ -284,67 +285,14 @@ theorem run3_base (t : List Cell) (ops : List Op2) : run3 t (ops.map Op3.base) =
     simp only [List.map_cons, run3, run2, step3]
     split <;> simp_all
 
-/-! ### non-vacuity: a concrete chain with six of the new operations
+/-! ### non-vacuity: concrete chains that meet the hypotheses and really run
 
-`coalesce` (one operand cell loses against an occupied coordinate, one is new), `add_statics`, `clip` on
-the evaluation date, `to_incremental`, `to_cumulative` (round trip back to the clipped triangle), `merge`
-(left join). The kernel cannot unfold `List.mergeSort` on ≥ 2 elements, so each step is evaluated up to
-its final `Triangle(...)` call by `decide +kernel` and the constructor is discharged with `ofCells_idem`
-(`Lemmas/AllOpsEval.lean`). -/
-
-def exA : Metadata := { details := [("lob", .str "A")] }
-def exB : Metadata := { details := [("lob", .str "B")], country := some "US" }
-
-/-- a quarterly cumulative cell: quarter `q` of 2020, evaluated at the end of quarter `e` -/
-def exCell (md : Metadata) (q e : Nat) (paid : Int) : Cell :=
-  let qe (k : Nat) : Date := ⟨2020, 3 * k, if k == 2 || k == 3 then 30 else 31⟩
-  { kind := .cumulative, ps := ⟨2020, 3 * q - 2, 1⟩, pe := qe q, ev := qe e,
-    values := [("paid_loss", .int paid), ("earned_premium", .int 100)], md := md }
-
-/-- two slices, ragged: 7 cells -/
-def exT : List Cell :=
-  [ exCell exA 1 1 10, exCell exA 1 2 20, exCell exA 1 3 25, exCell exA 2 2 7, exCell exA 2 3 9,
-    exCell exB 1 1 1, exCell exB 1 2 2 ]
-
-/-- `coalesce` operand: a cell at an occupied coordinate (loses) and a new one -/
-def exOther : List Cell := [ exCell exA 1 1 999, exCell exB 2 2 3 ]
-/-- `add_statics` source -/
-def exSrc : List Cell := [ { exCell exA 1 4 0 with values := [("reported_loss", .int 40), ("earned_premium", .int 111)] } ]
-/-- `merge` operand -/
-def exO2 : List Cell := [ { exCell exB 2 2 0 with values := [("incurred_loss", .int 5)] } ]
-def exD : Date := ⟨2020, 6, 30⟩
-
-def exChain : List Op2 :=
-  [ .coalesce [exOther], .addStatics exSrc ["reported_loss"],
-    .clipFull { minEval := some exD, maxEval := some exD }, .toIncremental, .toCumulative,
-    .merge (some .left) none exO2 ]
-
-def exT1 : List Cell := exT ++ [exCell exB 2 2 3]
-def exT2 : List Cell := exT1.map (addStaticsCell exSrc ["reported_loss"])
-def exT3 : List Cell := (exT2.filter fun c => decide (exD ≤ c.ev)).filter (fun c => decide (c.ev ≤ exD))
-def exT4 : List Cell := exT3.map fun c => { c with kind := .incremental, prev := some c.ps.pred }
-def exT6 : List Cell := (joinCore .left exT3 exO2).filterMap mergeCellPair
-
-theorem exT_canonical : Canonical exT := ⟨by decide +kernel, by decide +kernel, by decide +kernel⟩
-theorem exT1_canonical : Canonical exT1 := ⟨by decide +kernel, by decide +kernel, by decide +kernel⟩
-theorem exT2_canonical : Canonical exT2 := ⟨by decide +kernel, by decide +kernel, by decide +kernel⟩
-theorem exT3_canonical : Canonical exT3 := ⟨by decide +kernel, by decide +kernel, by decide +kernel⟩
-theorem exT4_canonical : Canonical exT4 := ⟨by decide +kernel, by decide +kernel, by decide +kernel⟩
-theorem exT6_canonical : Canonical exT6 := ⟨by decide +kernel, by decide +kernel, by decide +kernel⟩
-
-theorem exChain_runs : run2 exT exChain = .ok exT6 := by
-  unfold exChain
-  rw [run2_cons (coalesce_eval (r := exT1) (by decide +kernel) exT1_canonical)]
-  rw [run2_cons (addStatics_eval (r := exT2) rfl exT2_canonical)]
-  rw [run2_cons (clipEval_eval (r := exT3) rfl exT3_canonical)]
-  rw [run2_cons (toIncremental_eval (L := exT4) (by decide +kernel) (okIs_eq (by decide +kernel))
-        (ofCells_eval rfl exT4_canonical))]
-  rw [run2_cons (toCumulative_eval (L := exT3) (by decide +kernel) (okIs_eq (by decide +kernel))
-        (ofCells_eval rfl exT3_canonical))]
-  rw [run2_cons (merge_eval (P := joinCore .left exT3 exO2) (okIs_eq (by decide +kernel))
-        (ofCells_eval rfl exT6_canonical))]
-  rfl
-
+The witnesses (triangles `exT…`, chains `exChain`, `exChain3`, `exChain4`, and the kernel evaluation of every step:
+`exChain_runs`, `exChain3_runs`, `exChain4_runs`) are in `Lemmas/AllOpsExamples.lean`. `exChain`: six `Op2`
+operations (`coalesce`, `add_statics`, `clip`, `to_incremental`, `to_cumulative`, `merge`). `exChain3`: five `Op3`
+operations with function arguments; its first step (`derive_metadata` with a lambda) yields a list that is provably NOT
+sorted (`exL1_not_sorted`) and the constructor re-sorts it. `exChain4`: `t[1:6]` through the general `__getitem__`
+(an `Op4` constructor), then `derive_fields` and `filter`. -/
 
 theorem exChain_args : ∀ op ∈ exChain, op.argsCanonical := by
   intro op hop
@@ -359,6 +307,7 @@ theorem exChain_args : ∀ op ∈ exChain, op.argsCanonical := by
   · trivial
   · trivial
   · exact ⟨by decide +kernel, by decide +kernel, by decide +kernel⟩
+
 
 /-- the hypotheses of `run2_canonical` are met by a two-slice, 7-cell triangle and a chain of six new
 operations, and the chain really runs (to a 4-cell triangle whose first cell carries the static field
@@ -461,61 +410,22 @@ theorem run4_base (t : List Cell) (ops : List Op3) : run4 t (ops.map Op4.base) =
     simp only [List.map_cons, run4, run3, step4]
     split <;> simp_all
 
-/-! ### non-vacuity of `run3_canonical`: a chain of five `Op3` operations with function arguments
+/-- **Contiguity is re-established by every chain**: in the result of any `Op4` chain a cell lying between two
+cells of one slice (metadata equal under Python's `==`, i.e. `Metadata.cmp = .eq`) belongs to that slice -/
+theorem run4_slices_contiguous {t t' : List Cell} (ops : List Op4) (ht : Canonical t)
+    (ho : ∀ op ∈ ops, op.argsCanonical) (h : run4 t ops = .ok t') {i j k : Nat} (hij : i < j) (hjk : j < k)
+    (hk : k < t'.length) (hm : Metadata.cmp t'[i].md t'[k].md = .eq) : Metadata.cmp t'[i].md t'[j].md = .eq :=
+  canonical_slices_contiguous (run4_canonical ops ht ho h) hij hjk hk hm
 
-`derive_metadata(lob=lambda c: "C" if c.evaluation_date.month == 3 else c.details["lob"])` moves the two
-cells evaluated in March into two NEW slices, so the constructor really re-sorts (the mapped list `exL1` is
-not in order; `exS1` is the sorted sequence); then `filter(lambda c: c["paid_loss"] > 5)`,
-`derive_fields(double=lambda c: c["paid_loss"] * 2)`, `replace(period_end=lambda c: c.evaluation_date)` and
-`| other`. Each step is evaluated by the kernel up to its `Triangle(...)`; the constructor call is discharged by
-`ofCells_eval_perm` (first step: a genuine permutation) or `ofCells_eval`. -/
+/-- **Slice order is re-established by every chain**: slices follow `Metadata.__lt__` strictly, cells ascend
+inside a slice -/
+theorem run4_slice_order {t t' : List Cell} (ops : List Op4) (ht : Canonical t)
+    (ho : ∀ op ∈ ops, op.argsCanonical) (h : run4 t ops = .ok t') {i j : Nat} (hij : i < j) (hj : j < t'.length) :
+    (Metadata.cmp t'[i].md t'[j].md = .eq ∧ Cell.le t'[i] t'[j] = true) ∨ mlt t'[i].md t'[j].md :=
+  canonical_slice_order (run4_canonical ops ht ho h) hij hj
 
 section nonvacuity3
 open Bermuda.Fn
-
-def exAc : Metadata := { details := [("lob", .str "C")] }
-def exBc : Metadata := { details := [("lob", .str "C")], country := some "US" }
-
-def exLob : Ex :=
-  .ite (.bin .eq (.month (.cattr .evaluationDate)) (.const (.int 3))) (.const (.str "C")) (.detail "lob")
-def exBig : Ex := .bin .gt (.field "paid_loss") (.const (.int 5))
-def exDouble : Ex := .bin .mul (.field "paid_loss") (.const (.int 2))
-def exU : List Cell := [ exCell exB 2 2 3 ]
-
-def exChain3 : List Op3 :=
-  [ .deriveMetadataFn [("lob", exLob)], .filterFn exBig, .deriveFields [("double", exDouble)],
-    .replaceFn [.periodEnd (.cattr .evaluationDate)], .union exU ]
-
-/-- `map` of the first step, in the order of the input -/
-def exL1 : List Cell :=
-  [ { exCell exA 1 1 10 with md := exAc }, exCell exA 1 2 20, exCell exA 1 3 25, exCell exA 2 2 7, exCell exA 2 3 9,
-    { exCell exB 1 1 1 with md := exBc }, exCell exB 1 2 2 ]
-/-- the same cells as the constructor returns them -/
-def exS1 : List Cell :=
-  [ exCell exA 1 2 20, exCell exA 1 3 25, exCell exA 2 2 7, exCell exA 2 3 9, { exCell exA 1 1 10 with md := exAc },
-    exCell exB 1 2 2, { exCell exB 1 1 1 with md := exBc } ]
-def exS2 : List Cell := exS1.take 5
-def exS3 : List Cell := exS2.map fun c =>
-  { c with values := c.values ++ [("double", match c.values.get? "paid_loss" with | some (.int i) => .int (i * 2) | _ => .none)] }
-def exS4 : List Cell := exS3.map fun c => { c with pe := c.ev }
-def exS5 : List Cell := exS4 ++ exU
-
-theorem exL1_not_sorted : ¬ exL1.Pairwise (fun a b => Cell.le a b) := by decide +kernel
-theorem exS1_canonical : Canonical exS1 := ⟨by decide +kernel, by decide +kernel, by decide +kernel⟩
-theorem exS2_canonical : Canonical exS2 := ⟨by decide +kernel, by decide +kernel, by decide +kernel⟩
-theorem exS3_canonical : Canonical exS3 := ⟨by decide +kernel, by decide +kernel, by decide +kernel⟩
-theorem exS4_canonical : Canonical exS4 := ⟨by decide +kernel, by decide +kernel, by decide +kernel⟩
-theorem exS5_canonical : Canonical exS5 := ⟨by decide +kernel, by decide +kernel, by decide +kernel⟩
-
-theorem exChain3_runs : run3 exT exChain3 = .ok exS5 := by
-  unfold exChain3
-  rw [run3_cons (deriveMetadataFn_eval (L := exL1) (okIs_eq (by decide +kernel))
-        (ofCells_eval_perm (by decide +kernel) (by decide +kernel) exS1_canonical))]
-  rw [run3_cons (filterFn_eval (L := exS2) (okIs_eq (by decide +kernel)) (ofCells_eval rfl exS2_canonical))]
-  rw [run3_cons (deriveFields_eval (L := exS3) (okIs_eq (by decide +kernel)) (ofCells_eval rfl exS3_canonical))]
-  rw [run3_cons (replaceFn_eval (L := exS4) (okIs_eq (by decide +kernel)) (ofCells_eval rfl exS4_canonical))]
-  rw [run3_cons (union_eval (ofCells_eval rfl exS5_canonical))]
-  rfl
 
 theorem exChain3_args : ∀ op ∈ exChain3, op.argsCanonical := by
   intro op hop
@@ -536,5 +446,22 @@ example : Canonical exS5 ∧ exS5.length = 6 ∧ (metasOf exS5).length = 3 ∧
    by decide +kernel⟩
 
 end nonvacuity3
+
+section nonvacuity4
+open Bermuda.Fn
+
+theorem exChain4_args : ∀ op ∈ exChain4, op.argsCanonical := by
+  intro op hop
+  simp only [exChain4, List.mem_cons, List.not_mem_nil, or_false] at hop
+  rcases hop with rfl | rfl | rfl <;> trivial
+
+/-- the hypotheses of `run4_canonical` (and of `run4_slices_contiguous` / `run4_slice_order`) are met by a chain
+that starts with an `Op4` operation and really runs: four cells of one slice remain, each with the derived field -/
+example : Canonical exG3 ∧ exG3.length = 4 ∧ (metasOf exG3).length = 1 ∧
+    (exG3.map fun c => c.values.keys.contains "double") = [true, true, true, true] :=
+  ⟨run4_canonical exChain4 exT_canonical exChain4_args exChain4_runs, by decide +kernel, by decide +kernel,
+   by decide +kernel⟩
+
+end nonvacuity4
 
 end Bermuda.Properties.C01Ext
